@@ -21,7 +21,8 @@ from .rec_pipeline import DEFAULT_H, default_cfg, make_evaluator
 from .checks_pipeline import rand_handler
 
 C18_CLAUSES = ["T_Completes", "T_MetricsDashFree", "T_HeaderWritten", "T_HeaderParses", "T_SubjectsRecovered", "T_GroupsRecovered",
-               "T_NoColumnShift", "T_ReadBack", "T_LineCount", "T_HeaderText", "T_RowText"]
+               "T_NoColumnShift", "T_ReadBack", "T_LineCount", "T_RowCells", "T_HeaderText", "T_RowText"]
+C18_DRIFT = ("T_HeaderText", "T_RowText")      # the text form of the file: not prescribed by C18
 C20_CLAUSES = ["T_Completes", "T_Loaded", "T_PerSubject", "T_Summary", "T_OrderIrrelevant", "T_Across", "T_AcrossValues",
                "T_QueriesReadOnly"]
 
@@ -161,7 +162,7 @@ def check_C18(tier: str, v: Verdict):
                      "inputs producing finite, NaN, infinite, None and absent values; written by the aggregator, read by from_file; distinct by "
                      "(group names, subject names, config)")
     v.cov["samples"] = [{"groups": r["meta"]["group_names"], "subjects": r["meta"]["subject_names"], "cfg": r["meta"]["cfg"]} for r in recs[:3]]
-    validate_traces(v, "Trace_Tsv", C18_CLAUSES, recs, site_c18,
+    validate_traces(v, "Trace_Tsv", C18_CLAUSES, recs, site_c18, drift_clauses=C18_DRIFT,
                     what_fn=lambda r, c: f"groups={r['meta']['group_names']} subjects={r['meta']['subject_names']} {r['meta'].get('exception', '')[:100]}")
     v.assumptions += ["TLC, CommunityModules", "finite floats are compared as the hex text of the double (bit-exact) - TLC compares the tokens; "
                       "strings are handed to TLC as sequences of characters"]
